@@ -247,7 +247,9 @@ def deleteAllOrNothing (before after : State) : Bool :=
     let b := before.get x.id
     b.phase != .stopped ||
     (x.phase == .deleted && x.client.isNone && x.ka.isEmpty && x.valset.isEmpty && x.pend.isEmpty) ||
-    sameRecord x b
+    -- not deleted: untouched by the deletion (a queued infraction-parameter change may still come
+    -- into force for a stopped consumer in the same block; that is not part of the deletion)
+    sameRecord { x with infr := b.infr, qinfr := b.qinfr } b
 
 /-- the light clients created in this block are exactly those of the consumers launched on a new
     client: a client created for a launch that failed later is rolled back with it -/
